@@ -156,13 +156,20 @@ fn peers_val(g: &Global) -> Val {
         .peers
         .iter()
         .map(|(a, p)| {
-            let (ca, cp, smax) = {
+            let (ca, cp, smax, fsm_view) = {
                 let ctx = p.context.lock().unwrap();
                 let arb = ctx.conn_arbiter.lock().unwrap();
                 (
                     arb.active_close_tx.is_some(),
                     arb.passive_close_tx.is_some(),
                     sorted_pairs(arb.fsm().configured_send_max().iter().map(|(f, v)| (*f, *v as u32))),
+                    // judged by the oracle only (not part of the model's observation): the FSM slots of the
+                    // two directions and the capabilities the FSM will put into the next OPEN
+                    Val::L(vec![
+                        Val::n(u8::from(arb.fsm().state(Role::Active))),
+                        Val::n(u8::from(arb.fsm().state(Role::Passive))),
+                        caps_val(arb.fsm().local_cap()),
+                    ]),
                 )
             };
             let key = match a {
@@ -187,6 +194,7 @@ fn peers_val(g: &Global) -> Val {
                     Val::b(p.admin_down),
                     Val::b(ca),
                     Val::b(cp),
+                    fsm_view,
                 ]),
             )
         })
@@ -196,6 +204,32 @@ fn peers_val(g: &Global) -> Val {
 }
 
 type Conns = std::collections::HashMap<(IpAddr, bool), (TcpStream, tokio::task::JoinHandle<()>)>;
+
+// What the admitted session puts on the wire first (judged by the oracle only): [] when no OPEN arrives
+// within 3 s (or the connection is closed), else [[my_as, hold_time, [optional parameter octets]]].
+async fn read_open(client: &mut TcpStream) -> Val {
+    use tokio::io::AsyncReadExt;
+    let r = tokio::time::timeout(Duration::from_secs(3), async {
+        let mut h = [0u8; 19];
+        client.read_exact(&mut h).await.ok()?;
+        let len = u16::from_be_bytes([h[16], h[17]]) as usize;
+        if h[18] != 1 || len < 29 {
+            return None;
+        }
+        let mut b = vec![0u8; len - 19];
+        client.read_exact(&mut b).await.ok()?;
+        Some(b)
+    })
+    .await;
+    match r {
+        Ok(Some(b)) => Val::L(vec![Val::L(vec![
+            Val::n(u16::from_be_bytes([b[1], b[2]])),
+            Val::n(u16::from_be_bytes([b[3], b[4]])),
+            Val::from_bytes(&b[10..]),
+        ])]),
+        _ => Val::L(vec![]),
+    }
+}
 
 // case = [asn, router id, confederation, restarting, groups, statics, ops]
 async fn run_accept_case_async(case: &Val) -> Val {
@@ -267,10 +301,12 @@ async fn run_accept_case_async(case: &Val) -> Val {
                         (c.unwrap(), s.unwrap().0)
                     }
                 };
+                let mut client = client;
                 match accept_connection(&global, &tables, server, role).await {
                     Some(session) => {
-                        res = Val::L(vec![session_val(&session)]);
+                        let sv = session_val(&session);
                         let h = tokio::spawn(session.run(global.clone(), active_tx.clone()));
+                        res = Val::L(vec![sv, read_open(&mut client).await]);
                         if let Some(old) = conns.insert((addr, role == Role::Active), (client, h)) {
                             // cannot happen if the same-direction check works; keep the socket open
                             zombies.push(old.0);
@@ -361,10 +397,12 @@ async fn run_accept_case_async(case: &Val) -> Val {
                         old.push(x);
                     }
                 }
+                let mut client = client;
                 match admitted {
                     Some(session) => {
-                        res = Val::L(vec![session_val(&session)]);
+                        let sv = session_val(&session);
                         let h = tokio::spawn(session.run(global.clone(), active_tx.clone()));
+                        res = Val::L(vec![sv, read_open(&mut client).await]);
                         conns.insert((addr, role == Role::Active), (client, h));
                     }
                     None => drop(client),
@@ -458,15 +496,42 @@ async fn run_accept_case_async(case: &Val) -> Val {
                     drop(guard);
                     let admitted = acc.await;
                     let _ = tokio::time::timeout(Duration::from_secs(5), old_h).await;
+                    let mut client = client;
                     match admitted {
                         Some(session) => {
-                            res = Val::L(vec![session_val(&session)]);
+                            let sv = session_val(&session);
                             let h = tokio::spawn(session.run(global.clone(), active_tx.clone()));
+                            res = Val::L(vec![sv, read_open(&mut client).await]);
                             if let Some(z) = conns.insert((addr, role == Role::Active), (client, h)) {
                                 zombies.push(z.0);
                             }
                         }
                         None => drop(client),
+                    }
+                }
+            }
+            9 => {
+                // hard ResetPeer through the gRPC method: [9, addr, direction].  It ends every connection of
+                // the neighbour; the model's operation is "the connection (addr, direction) ends", so the API
+                // is used only when that is the neighbour's only connection (else the client closes it).
+                use api::go_bgp_service_server::GoBgpService;
+                let active = ol[2].int() == 0;
+                if conns.contains_key(&(addr, !active)) {
+                    if let Some((client, h)) = conns.remove(&(addr, active)) {
+                        drop(client);
+                        let _ = tokio::time::timeout(Duration::from_secs(5), h).await;
+                    }
+                } else {
+                    let _ = svc
+                        .reset_peer(tonic::Request::new(api::ResetPeerRequest {
+                            address: addr.to_string(),
+                            soft: false,
+                            ..Default::default()
+                        }))
+                        .await;
+                    if let Some((client, h)) = conns.remove(&(addr, active)) {
+                        let _ = tokio::time::timeout(Duration::from_secs(5), h).await;
+                        drop(client);
                     }
                 }
             }
